@@ -50,3 +50,52 @@ Proof.
   replace (map f hist ++ [f x]) with (map f (hist ++ [x])) by (rewrite map_app; reflexivity).
   rewrite lastn_map. apply lower_median_map. exact Hf.
 Qed.
+
+(* ---------- the moving maximum / minimum: the same, for antisymmetric total preorders ---------- *)
+From Coq Require Import NArith.
+From Signalo Require Import Model.Bounds Spec.C04 Proofs.Bounds.
+
+Lemma is_max_map {T} (leb : T -> T -> bool) (f : T -> T) (Hf : forall a b, leb (f a) (f b) = leb a b) w y :
+  is_max leb w y -> is_max leb (map f w) (f y).
+Proof.
+  intros [I M]. split; [apply in_map; exact I|].
+  intros v Hv. apply in_map_iff in Hv. destruct Hv as (u & <- & Hu). rewrite Hf. apply M. exact Hu.
+Qed.
+
+Lemma is_max_unique {T} (leb : T -> T -> bool) (Hanti : forall a b, leb a b = true -> leb b a = true -> a = b) w a b :
+  is_max leb w a -> is_max leb w b -> a = b.
+Proof. intros [Ia Ma] [Ib Mb]. apply Hanti; [apply Mb; exact Ia|apply Ma; exact Ib]. Qed.
+
+Lemma max_equivariant :
+  forall (T : Type) (leb : T -> T -> bool), total_preorder leb -> (forall a b, leb a b = true -> leb b a = true -> a = b) ->
+  forall f : T -> T, (forall a b, leb (f a) (f b) = leb a b) ->
+  forall n maxu, (1 <= n)%N -> (n + 1 <= maxu)%N -> forall hist x,
+  exists s s' t t' y, oexec (max_step leb n maxu false) init hist = Some s /\ max_step leb n maxu false s x = Some (s', y) /\
+    oexec (max_step leb n maxu false) init (map f hist) = Some t /\ max_step leb n maxu false t (f x) = Some (t', f y).
+Proof.
+  intros T leb Hpre Hanti f Hf n maxu Hn Hm hist x.
+  destruct (max_run T leb Hpre n maxu Hn Hm hist x) as (s & s' & y & E & F & M).
+  destruct (max_run T leb Hpre n maxu Hn Hm (map f hist) (f x)) as (t & t' & y2 & E2 & F2 & M2).
+  exists s, s', t, t', y. split; [exact E|]. split; [exact F|]. split; [exact E2|].
+  rewrite F2. f_equal. f_equal.
+  apply (is_max_unique leb Hanti (lastn (N.to_nat n) (map f hist ++ [f x]))); [exact M2|].
+  replace (map f hist ++ [f x]) with (map f (hist ++ [x])) by (rewrite map_app; reflexivity).
+  rewrite lastn_map. apply is_max_map; assumption.
+Qed.
+
+Lemma min_equivariant :
+  forall (T : Type) (leb : T -> T -> bool), total_preorder leb -> (forall a b, leb a b = true -> leb b a = true -> a = b) ->
+  forall f : T -> T, (forall a b, leb (f a) (f b) = leb a b) ->
+  forall n maxu, (1 <= n)%N -> (n + 1 <= maxu)%N -> forall hist x,
+  exists s s' t t' y, oexec (min_step leb n maxu false) init hist = Some s /\ min_step leb n maxu false s x = Some (s', y) /\
+    oexec (min_step leb n maxu false) init (map f hist) = Some t /\ min_step leb n maxu false t (f x) = Some (t', f y).
+Proof.
+  intros T leb Hpre Hanti f Hf n maxu Hn Hm hist x.
+  destruct (min_run T leb Hpre n maxu Hn Hm hist x) as (s & s' & y & E & F & M).
+  destruct (min_run T leb Hpre n maxu Hn Hm (map f hist) (f x)) as (t & t' & y2 & E2 & F2 & M2).
+  exists s, s', t, t', y. split; [exact E|]. split; [exact F|]. split; [exact E2|].
+  rewrite F2. f_equal. f_equal.
+  apply (is_max_unique (fun a b => leb b a) (fun a b H1 H2 => Hanti a b H2 H1) (lastn (N.to_nat n) (map f hist ++ [f x]))); [exact M2|].
+  replace (map f hist ++ [f x]) with (map f (hist ++ [x])) by (rewrite map_app; reflexivity).
+  rewrite lastn_map. apply (is_max_map (fun a b => leb b a) f (fun a b => Hf b a)). exact M.
+Qed.
